@@ -19,6 +19,7 @@ import (
 	"net/url"
 	"runtime"
 	"sort"
+	"strings"
 
 	v1 "github.com/google/go-containerregistry/pkg/v1"
 )
@@ -364,12 +365,19 @@ func ParseArchitecture(s string) Architecture {
 		return amd64
 	case "aarch64", "arm64":
 		return arm64
-	case "armhf":
+	case "armhf", "arm/v6":
 		return armv6
-	case "armv7":
+	case "armv7", "arm/v7":
 		return armv7
 	case "loong64", "loongarch64":
 		return loong64
+	}
+	// An architecture is one path element: it names the architecture directory of a repository
+	// (<repo>/<arch>/APKINDEX.tar.gz), the per-architecture working directory, and it is part of the
+	// names of files apko creates (apko-<arch>.tar.gz, sbom-<arch>.spdx.json). A string that is not
+	// one plain element ("." and "..", anything with a separator) is escaped so that it stays one.
+	if s == "." || s == ".." || strings.Contains(s, "/") {
+		s = strings.NewReplacer("/", "%2F", ".", "%2E").Replace(s)
 	}
 	return Architecture(s)
 }
